@@ -10,4 +10,5 @@ import OxyModel.Props.C02
 #print axioms C02.C02_zero_is_error_partial
 #print axioms C02.C02_zero_is_error_counterexample
 #print axioms C02.C02_handout_fresh
+#print axioms C02.C02_any_rewrite_is_modelled
 #print axioms C02.C02_downstream_mutation_noop
